@@ -798,6 +798,36 @@ def _directed_events(rng, world, op):
     return [ev] + [{"op": t, "slot": 0, "args": {}} for t in tail]
 
 
+def _pingpong_events(rng):
+    """Scripted lane: the two view-iterators take turns on the same few messages; each round opens one view, advances a
+    little, edits (mostly the same field, values from a tiny pool, so a -> b -> a happens), and stops at the yield or
+    later; reads / refresh / copy-swap between the rounds."""
+    evs = []
+    for op in rng.choice([[], ["read_abs"], ["read_rel"], ["read_abs", "read_rel"], ["refresh"]]):
+        evs.append({"op": op, "slot": 0, "args": {}})
+    view = rng.choice(["abs", "rel"])
+    field = rng.randrange(1 << 16)
+    depth = rng.choice([1, 1, 1, 2, 3])
+    for _ in range(rng.randrange(2, 6)):
+        evs.append({"op": "iter_" + view, "slot": 0})
+        for _ in range(depth if rng.random() < 0.8 else rng.choice([1, 2, 3])):
+            evs.append({"op": "iter_advance", "slot": 0})
+        for _ in range(rng.choice([1, 1, 2])):
+            f = field if rng.random() < 0.75 else rng.randrange(1 << 16)
+            evs.append({"op": "iter_edit", "slot": 0, "field": f, "value": rng.randrange(1 << 16) | (1 if rng.random() < 0.8 else 0)})
+        evs.extend(rng.choice([[{"op": "iter_close", "slot": 0}], [{"op": "iter_close", "slot": 0}],
+                               [{"op": "iter_throw", "slot": 0}], [{"op": "iter_advance", "slot": 0}, {"op": "iter_close", "slot": 0}],
+                               [{"op": "iter_exhaust", "slot": 0}]]))
+        for op in rng.choice([[], [], ["read_abs"], ["read_rel"], ["read_abs", "read_rel"], ["read_rel", "read_abs"], ["refresh"],
+                              ["copy_swap"]]):
+            evs.append({"op": op, "slot": 0, "args": {}})
+        if rng.random() < 0.8:
+            view = "rel" if view == "abs" else "abs"
+    evs.append({"op": "read_abs", "slot": 0, "args": {}})
+    evs.append({"op": "read_rel", "slot": 0, "args": {}})
+    return evs
+
+
 def c04_run_one(seed, tier, index):
     rng = random.Random(seed)
     res = RunResult()
@@ -810,10 +840,24 @@ def c04_run_one(seed, tier, index):
     else:
         knobs = _draw_knobs(rng, tier)
         init = _gen_init(rng, knobs)
+    pingpong = (not directed) and rng.random() < 0.06
+    if pingpong:
+        knobs = {"lane": "pingpong"}
+        spec = music.gen_music(rng, max_notes=rng.choice([1, 2, 4]), allow_empty=False, horizon=rng.choice([24, 96]),
+                               grid=rng.choice([6, 12]))
+        if rng.random() < 0.6 and spec["notes"]:
+            spec["notes"][0][2] = 0   # first note on tick 0: both views start with the same logical message
+        init = [{"spec": spec, "mode": rng.choice(MODES)}]
     world = C04World(init)
     events = []
     viol = None
-    if directed:
+    if pingpong:
+        for ev in _pingpong_events(rng):
+            events.append(ev)
+            viol = world.apply(ev, len(events) - 1)
+            if viol is not None or world.foreign:
+                break
+    elif directed:
         planned = _directed_events(rng, world, op)
         for ev in planned:
             events.append(ev)
